@@ -393,7 +393,13 @@ class Eval:
                 pyt = {"complex": complex, "float": float, "int": int, "str": str, "bool": bool, "Integral": int, "Real": float}
                 return any(type(x) is pyt[n] or (n in ("Real",) and isinstance(x, (int, float))) for n in tn if n in pyt)
             if isinstance(x, ANode):
-                targets = e.args[1].elts if isinstance(e.args[1], ast.Tuple) else [e.args[1]]
+                def _flat(t_):
+                    if isinstance(t_, ast.Tuple):
+                        return [y for el in t_.elts for y in _flat(el)]
+                    if isinstance(t_, ast.BinOp) and isinstance(t_.op, ast.BitOr):
+                        return _flat(t_.left) + _flat(t_.right)
+                    return [t_]
+                targets = _flat(e.args[1])
                 names = set()
                 for t in targets:
                     d = dotted(t)
@@ -474,6 +480,11 @@ class Eval:
                     return out
                 if fn in ("sum", "min", "max") and (nums or fn == "sum"):
                     return {"sum": sum, "min": min, "max": max}[fn](nums)
+        if fn in ("any", "all") and len(e.args) == 1:
+            vals = self._expr(e.args[0], env)
+            if isinstance(vals, (list, tuple)) and all(isinstance(v, bool) for v in vals):
+                return any(vals) if fn == "any" else all(vals)
+            raise AnalysisError(f"fmt_eval: undecidable {fn}()")
         if fn == "str":
             return self._tostr(self._expr(e.args[0], env))
         if isinstance(e.func, ast.Attribute) and e.func.attr == "join":
